@@ -5,8 +5,8 @@ granted and that no operation history of practical size can exhibit:
 * widths (sizeof, in bytes) of the size / count / index / epoch fields of the public structs - the
   models use unbounded naturals for them, which is exact only while the C field is as wide as the
   model assumes (a `size_t namesize` narrowed to `uint32_t` changes nothing below 4 GiB);
-* function-local `static` objects that are not `const` in the preprocessed library sources - the
-  models treat the parsers, encoders, hash and string functions (and the formatting macro used by
+* writable static storage (function-local statics, file-scope statics, globals: the symbols an
+  object file defines in .data/.bss) of the library sources - the models treat the parsers, encoders, hash and string functions (and the formatting macro used by
   the containers) as functions of their arguments, which a hidden static buffer breaks only when two
   threads are inside at once.
 
@@ -84,31 +84,24 @@ def widths(repo):
     return res
 
 
-TOK = re.compile(r"[{}]|\bstatic\b")
-
-
 def statics_of(repo, rel):
+    """writable static storage of one translation unit, whatever its syntax (function-local statics,
+    file-scope statics, globals): the symbols its object file defines in .data / .bss / common"""
     path = os.path.join(repo, rel)
-    r = subprocess.run(["gcc", "-E", "-P", "-std=gnu99"] + incl(repo) + [path], capture_output=True, text=True)
-    if r.returncode != 0:
-        die("cannot preprocess %s:\n%s" % (rel, r.stderr[:800]))
-    src = r.stdout
-    out, depth = [], 0
-    for m in TOK.finditer(src):
-        t = m.group(0)
-        if t == "{":
-            depth += 1
-        elif t == "}":
-            depth -= 1
-        elif depth >= 1:
-            end = src.find(";", m.start())
-            decl = " ".join(src[m.start():end if end >= 0 else m.start() + 80].split())
-            eq = decl.find("=")
-            head = decl if eq < 0 else decl[:eq]
-            if re.search(r"\bconst\b", head):
-                continue                        # read-only tables are no hidden state
-            out.append(head.strip()[:100])
-    return out
+    with tempfile.TemporaryDirectory(prefix="shapes_") as d:
+        obj = os.path.join(d, "u.o")
+        r = subprocess.run(["gcc", "-c", "-O1", "-std=gnu99", "-w"] + incl(repo) + [path, "-o", obj], capture_output=True, text=True)
+        if r.returncode != 0:
+            die("cannot compile %s:\n%s" % (rel, r.stderr[:800]))
+        nm = subprocess.run(["nm", "--defined-only", obj], capture_output=True, text=True)
+        if nm.returncode != 0:
+            die("nm failed on %s" % rel)
+    out = []
+    for line in nm.stdout.splitlines():
+        f = line.split()
+        if len(f) == 3 and f[1] in "dDbBcCsSgG":
+            out.append(re.sub(r"\.\d+$", "", f[2]))         # function-local statics carry a numeric suffix
+    return sorted(out)
 
 
 def fmt_macro(repo):
@@ -125,6 +118,8 @@ def fmt_macro(repo):
         m0 = re.search(r"=\s*(\d+)\s*;", text)
         init, grow = (int(m0.group(1)) if m0 else 0), 0
     return {"init": init, "grow": grow, "text": text}
+
+
 
 
 def extract(repo):
@@ -150,7 +145,7 @@ def render(d):
         ws = d["widths"].get(fam, [])
         L.append("/-- sizeof, in bytes, of the size / count / index fields the %s models take as unbounded -/" % fam)
         L.append("def %sWidths : List (String × Nat) := [%s]" % (fam, ", ".join("(%s, %d)" % (lstr(n), v) for n, v in ws)))
-        L.append("/-- function-local `static` objects that are not `const` in the preprocessed sources of this family -/")
+        L.append("/-- writable static storage (symbols in .data/.bss) defined by the sources of this family -/")
         L.append("def %sStatics : List (String × String) := [%s]" % (fam, ", ".join("(%s, %s)" % (lstr(f), lstr(x)) for f, x in d["statics"][fam])))
         L.append("")
     f = d["fmt"]
